@@ -299,3 +299,99 @@ def check(program, ex):
     if program["kind"] == "tcp":
         pass
     return v
+
+
+# ---------------------------------------------------------------------------------------
+# conformance of the endpoint models against real sockets (sampling of kernel behaviour)
+# ---------------------------------------------------------------------------------------
+
+
+def real_run(program, kind, loopkind, scale=1):
+    """Run the scenario over a real UNIX socketpair / TCP loopback connection.  Returns the
+    end-to-end observations (bytes received per side, end exception, busy result)."""
+    import socket
+
+    a_msgs = payload([n * scale for n in program["a_msgs"]], 0)
+    b_msgs = payload([n * scale for n in program["b_msgs"]], 100)
+    mb = program["max_bytes"]
+    obs = {"A": bytearray(), "B": bytearray(), "end": {}, "chunks_ok": True}
+
+    async def main():
+        if kind == "unix":
+            s1, s2 = socket.socketpair(socket.AF_UNIX, socket.SOCK_STREAM)
+            a = await anyio.abc.UNIXSocketStream.from_socket(s1)
+            b = await anyio.abc.UNIXSocketStream.from_socket(s2)
+        else:
+            listener = await anyio.create_tcp_listener(local_host="127.0.0.1", local_port=0)
+            port = listener.extra(anyio.abc.SocketAttribute.local_port)
+            holder = {}
+
+            async def accept_one():
+                holder["b"] = await listener.listeners[0].accept()
+
+            async with anyio.create_task_group() as tg0:
+                tg0.start_soon(accept_one)
+                a = await anyio.connect_tcp("127.0.0.1", port)
+            b = holder["b"]
+            await listener.aclose()
+
+        async def sender(stream, msgs, end):
+            for m in msgs:
+                await stream.send(m)
+            if end == "eof":
+                await stream.send_eof()
+            elif end == "close":
+                await stream.aclose()
+
+        async def receiver(name, stream, delay):
+            if delay:
+                await anyio.sleep(0.05)
+            while True:
+                try:
+                    chunk = await stream.receive(mb)
+                except BaseException as e:  # noqa: BLE001
+                    obs["end"][name] = type(e).__name__
+                    if isinstance(e, asyncio.CancelledError):
+                        raise
+                    return
+                if not (1 <= len(chunk) <= mb):
+                    obs["chunks_ok"] = False
+                obs[name] += chunk
+
+        with anyio.fail_after(20):
+            async with anyio.create_task_group() as tg:
+                tg.start_soon(sender, a, a_msgs, program["end"] if program["end"] != "abandon"
+                              else "eof")
+                tg.start_soon(receiver, "B", b, program.get("delay_reader"))
+                if b_msgs:
+                    tg.start_soon(sender, b, b_msgs, "eof")
+                    tg.start_soon(receiver, "A", a, False)
+        await a.aclose()
+        await b.aclose()
+
+    opts = {"use_uvloop": True} if loopkind == "uvloop" else {}
+    anyio.run(main, backend_options=opts)
+    return {"A": bytes(obs["A"]), "B": bytes(obs["B"]), "end": obs["end"],
+            "chunks_ok": obs["chunks_ok"]}
+
+
+def conform_real(args):
+    """One scenario on real sockets: must show what the model's oracle demands."""
+    idx, tier, loopkind, scale = args
+    program = scenarios(tier)[idx]
+    if program.get("busy") or program.get("local_close"):
+        return idx, 0, []
+    bad = []
+    try:
+        r = real_run(program, program["kind"], loopkind, scale)
+    except BaseException as e:  # noqa: BLE001
+        return idx, 1, [f"real {program['kind']} sockets on {loopkind} (scale {scale}): "
+                        f"{program['label']}: {type(e).__name__}: {e}"]
+    want_b = b"".join(payload([n * scale for n in program["a_msgs"]], 0))
+    want_a = b"".join(payload([n * scale for n in program["b_msgs"]], 100))
+    if r["B"] != want_b or r["A"] != want_a or not r["chunks_ok"] \
+            or r["end"].get("B") != "EndOfStream":
+        bad.append(f"real {program['kind']} sockets on {loopkind} (scale {scale}): "
+                   f"{program['label']}: B got {len(r['B'])}/{len(want_b)} bytes, A got "
+                   f"{len(r['A'])}/{len(want_a)}, ends {r['end']}, chunks_ok={r['chunks_ok']}")
+    return idx, 1, bad
